@@ -11,11 +11,13 @@ package main
 
 import (
 	"bytes"
+	"context"
 	"fmt"
 	"io"
 	"os"
 	"path/filepath"
 	"strings"
+	"time"
 
 	"verifharness/hc"
 )
@@ -227,6 +229,10 @@ func runSpecial(g *hc.Gen, scratch string, thorough bool, cs *childStats, sigs m
 		{"listagg_analytic", "SELECT id, LISTAGG(txt, '') OVER (PARTITION BY g ORDER BY val + 1) FROM " + derived},
 		{"cursor_udf", "DECLARE cur CURSOR FOR SELECT id FROM small; OPEN cur; DECLARE cf FUNCTION (@a) AS BEGIN DECLARE @x; FETCH cur INTO @x; RETURN @x; END; " +
 			"SELECT id, cf(id), CURSOR cur COUNT, CURSOR cur IS OPEN FROM big WHERE (cf(id) > 0 OR id > 0) AND (CURSOR cur IS IN RANGE OR id > 0); CLOSE cur; DISPOSE CURSOR cur"},
+		{"inline_in_subquery", "SELECT COUNT(*) FROM big WHERE grp IN (SELECT a FROM JSON_INLINE('', '[{\"a\":1},{\"a\":2}]') j)"},
+		{"inline_csv_in_subquery", "SELECT id, (SELECT MAX(c1) FROM CSV_INLINE(',', '1\n2\n3', 'UTF8', TRUE) x WHERE c1 <= big.grp) FROM big WHERE EXISTS (SELECT 1 FROM JSON_INLINE('', '[{\"a\":1},{\"a\":5}]') j WHERE j.a >= big.grp)"},
+		{"recursive_setop_subquery", "WITH RECURSIVE r (n) AS (SELECT 1 UNION ALL SELECT n + 1 FROM r WHERE n < 3 AND EXISTS (SELECT 1 FROM small WHERE grp IN (SELECT 1 UNION SELECT 2 FROM small b2 WHERE b2.id > 5000))) SELECT * FROM r"},
+		{"recursive_parallel_term", "WITH RECURSIVE r (n) AS (SELECT id FROM big WHERE id <= 180 UNION ALL SELECT n + 1000 FROM r WHERE n < 1000 AND n % 7 IN (SELECT grp FROM small INTERSECT SELECT grp FROM big)) SELECT COUNT(*) FROM r"},
 		{"prepared_literal", "PREPARE p1 FROM 'SELECT id, val + ? FROM big WHERE grp < ?'; EXECUTE p1 USING 50, 4; EXECUTE p1 USING 1.5, 9"},
 		{"prepared_variable", "DECLARE @pv := 3; PREPARE p2 FROM 'SELECT id, val + ?, txt || ? FROM big WHERE grp < ? ORDER BY val * ?'; EXECUTE p2 USING @pv, @pv || 'x', @pv + 2, @pv - 5; EXECUTE p2 USING @pv + 1, 'lit', (SELECT MAX(grp) FROM small), 2"},
 		{"prepared_named", "DECLARE @pn := 7; PREPARE p3 FROM 'SELECT id, :a + val, :b FROM big WHERE val > :a - 100 AND EXISTS (SELECT 1 FROM small s WHERE s.id = big.id + :c)'; EXECUTE p3 USING @pn * 2 AS a, (SELECT COUNT(*) FROM small) AS b, @pn AS c"},
@@ -256,6 +262,108 @@ func runSpecial(g *hc.Gen, scratch string, thorough bool, cs *childStats, sigs m
 				}
 			}
 			sig := fmt.Sprintf("%s/cpu%d", kind, cpu)
+			if !sigs[sig] {
+				sigs[sig] = true
+				cs.Sigs = append(cs.Sigs, sig)
+			}
+		}
+	}
+}
+
+// Loads that FAIL in the middle of a file (after the loader's two goroutines are well under way) and loads
+// that are cancelled while they run: the error slot, the position counter and the channels of the
+// producer/consumer pair are then used on their unhappy paths.
+func runFailingLoads(g *hc.Gen, scratch string, thorough bool, cs *childStats, sigs map[string]bool) {
+	repo, err := os.MkdirTemp(scratch, "c13fail-")
+	if err != nil {
+		panic(err)
+	}
+	defer os.RemoveAll(repo)
+	type bad struct{ name, file, table, badLine string }
+	cases := []bad{
+		{"csv_surplus_field", "b1.csv", "`b1.csv`", "9001,1,2,three,SURPLUS,FIELD"},
+		{"csv_broken_quote", "b2.csv", "`b2.csv`", "9002,1,\"broken quote,x"},
+		{"tsv_surplus_field", "b3.tsv", "CSV('\\t', `b3.tsv`)", "9003\t1\t2\tthree\tSURPLUS"},
+		{"ltsv_no_separator", "b4.ltsv", "LTSV(`b4.ltsv`)", "line without any label separator"},
+		{"jsonl_broken", "b5.jsonl", "JSONL('{}', `b5.jsonl`)", "{\"id\": 9005, \"grp\": "},
+		{"jsonl_not_object", "b6.jsonl", "JSONL('{}', `b6.jsonl`)", "[1, 2, 3]"},
+	}
+	positions := []int{2, 350, 690}
+	if thorough {
+		positions = []int{2, 150, 299, 301, 350, 600, 690, 699}
+	}
+	rot := 0
+	for _, bc := range cases {
+		for _, at := range positions {
+			d := genMatrixData(g, 700)
+			var src []byte
+			switch {
+			case strings.HasSuffix(bc.file, ".csv"):
+				src = d.csv
+			case strings.HasSuffix(bc.file, ".tsv"):
+				src = d.tsv
+			case strings.HasSuffix(bc.file, ".ltsv"):
+				src = d.ltsv
+			default:
+				src = d.jsonl
+			}
+			lines := strings.Split(strings.TrimSuffix(string(src), "\n"), "\n")
+			if at < len(lines) {
+				lines = append(lines[:at], append([]string{strings.ReplaceAll(strings.ReplaceAll(bc.badLine, "\\t", "\t"), "\\\"", "\"")}, lines[at:]...)...)
+			}
+			_ = os.WriteFile(filepath.Join(repo, bc.file), []byte(strings.Join(lines, "\n")+"\n"), 0o644)
+			cpu := []int{2, 4, 8}[rot%3]
+			rot++
+			for _, src := range []string{"file", "stdin"} {
+				pr := hc.NewProc(repo)
+				table := bc.table
+				if src == "stdin" {
+					table = strings.Replace(table, "`"+bc.file+"`", "STDIN", 1)
+					if table == "STDIN" {
+						table = "CSV(',', STDIN)"
+					}
+					data, _ := os.ReadFile(filepath.Join(repo, bc.file))
+					_ = pr.P.Tx.Session.SetStdin(io.NopCloser(bytes.NewReader(data)))
+				}
+				sql := fmt.Sprintf("SET @@CPU TO %d; SELECT COUNT(*) FROM %s;", cpu, table)
+				_, err := pr.Exec(sql)
+				pr.Close()
+				cs.Queries++
+				kind := "failload:" + bc.name + ":" + src
+				cs.Kinds[kind]++
+				if err == nil {
+					cs.Errors["failload_no_error:"+bc.name]++
+				}
+				sig := fmt.Sprintf("%s/at%d/cpu%d/err%d", kind, at, cpu, hc.ErrCode(err))
+				if !sigs[sig] {
+					sigs[sig] = true
+					cs.Sigs = append(cs.Sigs, sig)
+				}
+			}
+		}
+	}
+	// cancellation while a long file is being loaded
+	big := genMatrixData(g, 20000)
+	_ = os.WriteFile(filepath.Join(repo, "long.csv"), big.csv, 0o644)
+	_ = os.WriteFile(filepath.Join(repo, "long.jsonl"), big.jsonl, 0o644)
+	_ = os.WriteFile(filepath.Join(repo, "long.ltsv"), big.ltsv, 0o644)
+	delays := []time.Duration{50 * time.Microsecond, 300 * time.Microsecond, 1 * time.Millisecond, 3 * time.Millisecond, 8 * time.Millisecond}
+	for _, tbl := range []string{"`long.csv`", "JSONL('{}', `long.jsonl`)", "LTSV(`long.ltsv`)"} {
+		for _, dl := range delays {
+			pr := hc.NewProc(repo)
+			ctx, cancel := context.WithCancel(pr.Ctx)
+			pr.Ctx = ctx
+			go func(d time.Duration) {
+				time.Sleep(d)
+				cancel()
+			}(dl)
+			_, err := pr.Exec("SET @@CPU TO 4; SELECT COUNT(*), MAX(val) FROM " + tbl + ";")
+			cancel()
+			pr.Close()
+			cs.Queries++
+			kind := "cancelload:" + strings.SplitN(strings.Trim(tbl, "`"), "(", 2)[0]
+			cs.Kinds[kind]++
+			sig := fmt.Sprintf("%s/%v/err%v", kind, dl, err != nil)
 			if !sigs[sig] {
 				sigs[sig] = true
 				cs.Sigs = append(cs.Sigs, sig)
